@@ -303,6 +303,11 @@ def c18(tier, seed):
                     violations.append(payload)
             else:
                 nondet.append(payload)
+    # -DEAV_EXTRA builds of the two adapter-backed source sets: same histories, each with its own fresh-object oracle and ledgers
+    # (the strndup'd lpart/domain strings exist only in this configuration)
+    for bk in ("idn", "idnkit"):
+        exe_x, _ = build.build_hist(bk, extra=True)
+        batches.append(Batch("extra-" + bk, exe_x, "C18", "lockstep", seed + 6, 3000 if tier == "quick" else 10**8, 60, W).run())
     if tier == "thorough":
         # -DEAV_EXTRA builds of the three source sets in lock-step (lpart/domain strings are part of the records)
         exes_x = {}
